@@ -21,7 +21,8 @@ PROPS['C04'] = {
         '(*tree.Edge).HashCode', '(*tree.Tree).UpdateTipIndex',
         '(*tree.Edge).HashEquals', '(*tree.Edge).SameBipartition', '(*tree.Edge).FindEdge',
         '(*tree.Tree).clearBitSetsRecur', '(*tree.Tree).ClearBitSets',
-        '(*hashmap.HashMap).Value', '(*hashmap.HashMap).PutValue', '(*hashmap.HashMap).rehash',
+        '(*hashmap.HashMap).Value', '(*hashmap.HashMap).PutValue', '(*hashmap.HashMap).rehash', 'hashmap.NewHashMap',
+        'tree.NewEdgeIndex', '(*tree.EdgeIndex).AddEdgeCount',
     ],
     'lemma_files': [],
     'trusted_base': TB_COMMON,
@@ -322,7 +323,7 @@ PROPS['C09'] = {
     'claim': 'unbounded proofs on the real code: Consensus rejects a threshold outside [0.5,1] before reading anything; every input tree is unrooted (its two root branches count as one split) before it is indexed and every one of its branches is counted exactly once; the splits kept are exactly the index entries whose count is strictly greater than trunc(cutoff*n) or equal to n - EdgeIndex.Edges is proved to return exactly the entries in that window (every returned entry is in it and every entry in it is returned) - and the lemma k > trunc(x) <=> k > x for integer k and x >= 0 turns this into "frequency strictly greater than the threshold or present in every tree"; each kept split is inserted with mean length Len/Count and support Count/n; the branch hash is side-symmetric (C04)',
     'level_note': 'AddEdgeCount / AddBipartition / LeastCommonAncestorUnrooted / StarTreeFromTree / ReinitIndexes enter through assumed thin contracts; "number of branches in a class" = "number of trees containing the split" needs distinct branches of one tree to have distinct splits (unrooted, no degree-2 node) which UnRoot establishes for rooted input; "and no other split" in the output tree rests on the LCA stretch contract and A-GRAPH; rounding of cutoff*float64(n) (A-FP)',
     'packages': ['./tree', './hashmap'],
-    'functions': [('tree.Consensus', {'match': [r'^callsite', r'^post', r'^inv']}),
+    'functions': [('tree.Consensus', {'match': [r'^callsite', r'^post', r'^inv']}), '(*tree.EdgeIndex).AddEdgeCount',
                   ('(*tree.EdgeIndex).Edges', {'match': [r'^post', r'^inv', r'^typeassert', r'^nil', r'^bounds', r'^pre']}),
                   '(*tree.Edge).HashCode'],
     'lemma_files': ['tree'],
